@@ -256,13 +256,14 @@ func (g *c01Gen) fn(name string) string {
 	}
 	switch g.r.Intn(12) {
 	case 0:
-		name += " "
+		name += g.pick(" ", "\t", "  ")
 	case 1:
-		name += "/**/"
+		name += g.pick("/**/", " /* c */ ", " -- c\n")
 	case 2:
 		name = `"` + name + `"`
 	case 3:
-		name += "\n"
+		// the other white space SQLite's tokenizer accepts
+		name += g.pick("\n", "\r", "\f", "\r\n", "\f ")
 	}
 	return name
 }
@@ -1015,7 +1016,7 @@ func c01Try(in c01Input) (vc VCase) {
 			rewritten++
 		}
 		for _, r := range l.sent + l.logged {
-			if r > 126 || (r < 32 && r != '\n' && r != '\t') {
+			if r > 126 || (r < 32 && r != '\n' && r != '\t' && r != '\r' && r != '\f') {
 				asciiOK = false
 			}
 		}
@@ -1089,6 +1090,7 @@ func TestVerif_C01(t *testing.T) {
 		{Stmts: []c01Stmt{{SQL: `INSERT INTO t(a, b) VALUES (julianday(), strftime('%f'))`}, {SQL: `INSERT INTO t(a, b) VALUES (unixepoch('subsec'), datetime ('now', 'subsec'))`}}},
 		{Tx: true, Stmts: []c01Stmt{{SQL: `INSERT INTO t(a, b) VALUES (random (), hex(randomblob(4)))`}, {SQL: `UPDATE t SET b = (SELECT julianday('now')) WHERE id = 1`}}},
 		{Stmts: []c01Stmt{{SQL: `WITH k(v) AS (SELECT random()) INSERT INTO t(a, b) SELECT v, time() FROM k`}}},
+		{Stmts: []c01Stmt{{SQL: "INSERT INTO t(a, b) VALUES (random\r\n(), strftime\f('%f','now'))"}}},
 	}, TailReqs: []c01Req{{Stmts: []c01Stmt{{SQL: `INSERT INTO t(a, b) VALUES (strftime('%J'), "random"())`}}}}}
 	ins = append(ins, corpus)
 	// session state created before a snapshot point and used after it (known finding: not part of a snapshot)
